@@ -86,6 +86,16 @@ TStats == /\ Is("Stats") /\ \A r \in Reqs : rq[r].phase = "done"
                       \/ /\ "KF-C19-5" \in KnownDeviations /\ ab > 0
                          /\ E.tr.ok > full /\ E.tr.ok <= full + ab + (IF "KF-C19-3" \in KnownDeviations THEN err ELSE 0)
                          /\ UseDeviation("KF-C19-5")
+          \* per-model scope (every request of these scenarios names a model): the models' counters together hold every
+          \* attempt exactly once, successes as successes
+          /\ ("model" \in DOMAIN E /\ "model" \in Scopes) =>
+                /\ E.model.total = E.model.ok + E.model.fail
+                /\ \/ /\ E.model.ok = FoldSet(LAMBDA e, acc : acc + cnt[e].ok, 0, EP)
+                      /\ E.model.fail = FoldSet(LAMBDA e, acc : acc + cnt[e].fail, 0, EP)
+                   \* Known finding KF-C19-6 (only if listed): nothing ever feeds the per-model collector
+                   \/ /\ "KF-C19-6" \in KnownDeviations
+                      /\ E.model.total = 0 /\ FoldSet(LAMBDA e, acc : acc + cnt[e].ok + cnt[e].fail, 0, EP) > 0
+                      /\ UseDeviation("KF-C19-6")
           /\ UNCHANGED vars /\ l' = l + 1
 
 TSilent == /\ \/ \E r \in Reqs : AttemptEnd(r)
